@@ -35,6 +35,8 @@ type Ctx struct {
 	usedUniqueErr map[string]bool
 	contractErrors []string
 	errGlobals map[*ssa.Global]bool
+	worldReach map[*ssa.Function]bool // functions that can reach a denied primitive
+	guardExpr  string                 // while verifying an "effects guarded" function: its guard expression
 	constInit  map[*ssa.Global]map[int]*ssa.Const // immutable struct globals: field index -> constant stored by init (-1 = whole scalar)
 	stableArr  map[string]bool                     // heap arrays of fields declared stable (written only by their constructors)
 	allFuncs map[*ssa.Function]bool
